@@ -27,6 +27,29 @@ def main():
     ex1 = scen.run_one(scn, [1])
     ex2 = scen.run_one(scn, ex1.sigchoices())
     assert explore.logsig(ex1) == explore.logsig(ex2)
+    # the DOT-subset parser on a hand-written sample, and against the dot
+    # binary's verdict on a broken one
+    from . import dotparse, seq
+    sample = ('digraph g{\ncompound=true;\ngraph [];\n// a comment\n'
+              '1 [label="1: a \\"q\\"\nnl",shape="box"]\n'
+              'subgraph cluster_2{\ngraph [label="2: n"];\n3 [label="3: x"]\n}'
+              '\n1 -> 3 [lhead=cluster_2];\n}\n')
+    g = dotparse.parse(sample)
+    assert [n for n, _ in g.nodes] == ['1'] and g.nodes[0][1]['label'] == \
+        '1: a "q"\nnl', g.nodes
+    assert g.subs[0].name == 'cluster_2' and g.edges == [
+        ('1', '3', {'lhead': 'cluster_2'})], (g.subs, g.edges)
+    try:
+        dotparse.parse('digraph g{ 1 [label="unterminated] }')
+        raise AssertionError("parser accepted an unterminated string")
+    except dotparse.DotError:
+        pass
+    # the reference model
+    assert seq.acyclic('abc', {('a', 'b'), ('b', 'c')})
+    assert not seq.acyclic('abc', {('a', 'b'), ('b', 'a')})
+    assert seq.closure('abc', {('a', 'b'), ('b', 'c')}) == {
+        ('a', 'b'), ('b', 'c'), ('a', 'c')}
+    assert len(gen.dags(3)) == 25 and len(gen.dags(4)) == 543
     print("selftest ok: schedules per bound", counts,
           "asynciojobs from", scen.asynciojobs.__file__)
     return 0
